@@ -256,6 +256,7 @@ func Main(args []string) {
 	wg.Wait()
 
 	var vr, er, nr []string
+	ndefs := NewInterner()
 	var vIdx, eIdx, nIdx []int
 	seen := map[string]bool{}
 	for i, c := range cases {
@@ -316,7 +317,7 @@ func Main(args []string) {
 			obs.Count("kind:matrix-stress")
 			continue
 		case *NICase:
-			nr = append(nr, t.Coq())
+			nr = append(nr, ndefs.Def("nrun", t.CoqWithDefs(ndefs)))
 			nIdx = append(nIdx, i)
 			obs.Count("kind:ni")
 			obs.Count(fmt.Sprintf("tasks:%d", len(t.Tasks)))
@@ -363,18 +364,13 @@ func Main(args []string) {
 		idx[name] = ix
 	}
 	if prop == "C11" {
+		sb.WriteString(ndefs.String())
 		fmt.Fprintf(&sb, "Definition nruns : list nrun := %s.\n", cg.List(nr))
-		emit("R_n_agree", "nrun_agree", "nruns", nIdx)
-		emit("R_n_dir", "(nrun_blamed nv_dir)", "nruns", nIdx)
-		emit("R_n_env", "(nrun_blamed nv_env)", "nruns", nIdx)
-		emit("R_n_matrix", "(nrun_blamed nv_matrix)", "nruns", nIdx)
-		emit("R_n_dirlate", "(nrun_blamed nv_dirlate)", "nruns", nIdx)
-		emit("R_n_defer", "(nrun_blamed nv_defer)", "nruns", nIdx)
-		emit("R_n_other", "nrun_unexplained", "nruns", nIdx)
-		emit("R_n_own_dir", "(nrun_own_blamed nv_dir)", "nruns", nIdx)
-		emit("R_n_own_env", "(nrun_own_blamed nv_env)", "nruns", nIdx)
-		emit("R_n_own_dirlate", "(nrun_own_blamed nv_dirlate)", "nruns", nIdx)
-		emit("R_n_defs", "nrun_defs", "nruns", nIdx)
+		sb.WriteString("Definition nstatus := Eval vm_compute in map nrun_status nruns.\n")
+		for k, name := range []string{"R_n_agree", "R_n_dir", "R_n_env", "R_n_matrix", "R_n_dirlate", "R_n_defer", "R_n_other",
+			"R_n_own_dir", "R_n_own_env", "R_n_own_dirlate", "R_n_defs"} {
+			emit(name, fmt.Sprintf("(status_at %d)", k), "nstatus", nIdx)
+		}
 	} else {
 		fmt.Fprintf(&sb, "Definition vruns : list vrun := %s.\n", cg.List(vr))
 		fmt.Fprintf(&sb, "Definition eruns : list erun := %s.\n", cg.List(er))
